@@ -157,22 +157,36 @@ def run_single(cfg):
             elif ev['table'].get(ev['chosen'], 0) <= 0:
                 viol.append(V('c17.choice_zero_weight', f'{txt}: chose {ev["chosen"]} with table weight {ev["table"].get(ev["chosen"], 0)} from {ev["offered"]}'))
     # (ii) stop rule
-    if set(mol.nodes) == set(range(len(mol))) and m >= 1:
-        names = [mol.nodes[blocks[k][0]].get('fragname') for k in sorted(blocks)]
+    def stop_rule(mol_, target_, tag_=''):
+        blocks_ = SC.blocks_of(mol_)
+        if not (set(mol_.nodes) == set(range(len(mol_))) and len(blocks_) >= 1):
+            return
+        names = [mol_.nodes[blocks_[k][0]].get('fragname') for k in sorted(blocks_)]
         added = [masses.get(key_of.get(nm, nm)) for nm in names[1:]]
         if all(x is not None for x in added):
             cw, early = 0.0, None
             eps = 0.0 if cfg.get('exact_target') is not None else 1e-6
             for i, x in enumerate(added):
-                if cw >= target + eps and early is None:
+                if cw >= target_ + eps and early is None:
                     early = i
                 cw += x
-            if cw < target - eps:
-                viol.append(V('c17.stopped_below_target', f'{txt}: added fragments {names[1:]} weigh {cw}, target {target}'))
+            if cw < target_ - eps:
+                viol.append(V('c17.stopped_below_target', f'{txt}{tag_}: added fragments {names[1:]} weigh {cw}, target {target_}'))
             if early is not None:
-                viol.append(V('c17.grew_beyond_target', f'{txt}: the target {target} was already reached after {early} of {len(added)} added fragments'))
-            if not added and target > eps:
-                viol.append(V('c17.stopped_below_target', f'{txt}: nothing was added although the target is {target}'))
+                viol.append(V('c17.grew_beyond_target', f'{txt}{tag_}: the target {target_} was already reached after {early} of {len(added)} added fragments'))
+            if not added and target_ > eps:
+                viol.append(V('c17.stopped_below_target', f'{txt}{tag_}: nothing was added although the target is {target_}'))
+    stop_rule(mol, target)
+    if cfg['seed'] % 3 == 2:
+        # further molecules from the SAME sampler object: every call grows from nothing to its own target
+        for k_, f_ in enumerate((1.0, 2.0, 0.5), 2):
+            t_ = target * f_
+            try:
+                mol_k = sampler.sample(t_, start_fragment=cfg['start_fragment'])
+            except Exception:
+                break            # dead ends are C16's concern
+            counters['further_samples_from_one_sampler'] += 1
+            stop_rule(mol_k, t_, f' [call {k_} on one sampler object, target {t_}]')
     # (iv) terminal rules
     for a in got_terminal:
         left = list(mol.nodes[a].get('bonding') or [])
